@@ -116,6 +116,10 @@ def cases(chk):
     T.append(('PrefixedArray(UnsignedByte,VarInt)', arr('UnsignedByte', ['VarInt']), [[], [0, 128, 2 ** 31], list(range(255))], [list(range(256))]))
     T.append(('PrefixedArray(VarInt,PrefixedArray(Byte,Boolean))', arr('VarInt', arr('Byte', ['Boolean'])), [[], [[]], [[True], [], [False, True, True]], [[True] * 127] * 2], []))
     T.append(('PrefixedArray(Integer,VarIntPrefixedByteArray)', arr('Integer', ['VarIntPrefixedByteArray']), [[], [b''], [b'ab', b'', b'\x00' * 200]], []))
+    # arrays whose elements together take more than 4096 / 8192 bytes (a block-data array, a long list of entity ids)
+    T.append(('PrefixedArray(VarInt,Integer)', arr('VarInt', ['Integer']), [[], [1, -1], list(range(-512, 513)), [(i * 2654435761) % 2 ** 31 for i in range(2500)]], []))
+    T.append(('PrefixedArray(Short,Long)', arr('Short', ['Long']), [[(i * 0x9E3779B97F4A7C15) % 2 ** 63 - 2 ** 62 for i in range(n)] for n in (0, 511, 512, 513, 1100)], []))
+    T.append(('PrefixedArray(VarInt,PrefixedArray(VarInt,Short))', arr('VarInt', arr('VarInt', ['Short'])), [[[i % 1000 for i in range(300)]] * 9, [[7] * 2049], [[1] * 10] * 300], []))
     T.append(('PrefixedArray(VarInt,PrefixedArray(VarInt,PrefixedArray(VarInt,UnsignedShort)))', arr('VarInt', arr('VarInt', arr('VarInt', ['UnsignedShort']))),
               [[], [[[1, 2], []], []], [[[65535]]]], []))
     return T
